@@ -1,6 +1,6 @@
 #!/usr/bin/env python3
 """C17 — the location cache is transparent (TTL never / 1 ms / forever x CheckExistence x indexed/linear)."""
-import sys, os, json, copy, collections
+import sys, os, json, copy, collections, re, shutil
 sys.path.insert(0, os.path.join(os.path.dirname(os.path.abspath(__file__)), "..", "lib"))
 from vlib import *
 from lochist import *
@@ -193,8 +193,26 @@ def main():
         "clock reconstruction in Driver/C17.lean (chooses model clock readings inside the recorded brackets)",
         "Open (table section, load under the entry lock, second look at the marker) is one atomic step of the concurrent model: the entry is locked before the table is unlocked (forced schedule c17.window, and -race stress in C12)"]
     ck.cov["checker_cmd"] = "lake build Props.C17 && lake env lean .audit/Audit_C17.lean (#print axioms)"
+    # the bracket table of the System's methods, regenerated from the source
+    gen_out = os.path.join(LEAN, "RulioModel", "Gen", "C17.lean")
+    shutil.copyfile(os.path.join(REPO, "go.sum"), os.path.join(HARNESS, "go.sum"))
+    rc, xtxt = sh(["go", "run", "./cmd/extract_c17", REPO, gen_out + ".new"], cwd=HARNESS, env=GOENV, timeout=600)
+    if rc == 0:
+        new = open(gen_out + ".new").read()
+        if not os.path.exists(gen_out) or open(gen_out).read() != new:
+            os.replace(gen_out + ".new", gen_out)
+        else:
+            os.remove(gen_out + ".new")
+        ck.cov["extracted"] = xtxt.strip()
+        unbalanced = [(n, int(f), int(p), int(d), int(r)) for n, f, p, d, r in
+                      re.findall(r'name := "([^"]+)", finds := (\d+), releasesPlain := (\d+), releasesDeferred := (\d+), returnsHeld := (\d+)', new)
+                      if not (int(f) == 1 and int(p) + int(d) == 1 and int(r) == 0)]
+    else:
+        unbalanced = []
     pr = prove("C17", leanchecker=ck.thorough)
     ck.add_proof(pr)
+    if rc != 0:
+        ck.violation("extract_c17 failed on the current source: " + xtxt[-600:], {"log": xtxt[-3000:], "theorem": "requests_release_once"}, tag="extract", no_input=True)
     drv, txt = build_harness()
     mdl, mtxt = model_driver()
     if not drv:
